@@ -250,7 +250,7 @@ Example C15_order_stop_example :
   let r k st := {| rs_status := st; rs_json := true; rs_fields := [([116], [116; k])]; rs_hdr := None; rs_okbody := true |} in
   let w := {| w_arr := 0; w_script := [Some (r 48 200%Z); Some (r 49 200%Z); Some (r 50 500%Z)];
               w_dflt := fun _ => r 63 200%Z; w_iter := [] |} in
-  let '(evs, _, out) := c_shoot {| cs_tables := []; cs_glob := [] |} [(a, 0%Z); (a, 4%Z); (b, 0%Z); (a, 0%Z)] w in
+  let '(evs, _, out) := c_shoot {| cs_tables := []; cs_glob := []; cs_vlists := [] |} [(a, 0%Z); (a, 4%Z); (b, 0%Z); (a, 0%Z)] w in
   out = FailedAt 2 FPost /\ sends _ _ _ evs = [0;1;2]%nat /\
   samples _ _ _ evs = [(0%nat, Some 200%Z); (1%nat, Some 200%Z); (2%nat, None)] /\
   pauses _ _ _ evs = [(1%nat, 4%Z)] /\
@@ -287,7 +287,10 @@ Print Assumptions C15_next_round_robin.
 (* The same fact where the scenarios use it: the preprocessor path source.<src>[next].<field>
    of the concrete instance.  With k earlier evaluations on this iterator and table it yields
    the field of row k mod len, consumes exactly one counter value of that segment, leaves every
-   other counter and the rest of the world alone; no other path expression touches a counter. *)
+   other counter and the rest of the world alone; the same for a list variable of a `variables`
+   source, source.<src>.<lst>[next], whose counter is named by the source AND the list (two lists
+   of the same name under different sources never share it); no other path expression touches a
+   counter.  (Which key an arbitrary path uses: Properties/C15_paths.v.) *)
 Theorem C15_next_in_preprocessor :
   (forall own src field (t : ctree) (w : cworld) rows c0,
      assoc_table (cs_tables (t_src t)) src = Some rows -> rows <> [] ->
@@ -297,10 +300,23 @@ Theorem C15_next_in_preprocessor :
          Some (w', row_field rows (c0 (seg_next own src) mod length rows) field) /\
        repr (w_iter w') (bump c0 (seg_next own src)) /\
        w_arr w' = w_arr w /\ w_script w' = w_script w) /\
+  (forall own src lst (t : ctree) (w : cworld) ls elems c0,
+     assoc_vsrc (cs_vlists (t_src t)) src = Some ls -> assoc_vlist ls lst = Some elems -> elems <> [] ->
+     repr (w_iter w) c0 -> (N.of_nat (c0 (seg_vnext own src lst)) < two63) ->
+     exists w',
+       eval_pexpr own (PVNext src lst) t w =
+         Some (w', nth_error elems (c0 (seg_vnext own src lst) mod length elems)) /\
+       repr (w_iter w') (bump c0 (seg_vnext own src lst)) /\
+       w_arr w' = w_arr w /\ w_script w' = w_script w) /\
+  (forall own s1 l1 s2 l2,
+     ~ In 46 s1 -> ~ In 46 s2 -> ~ In 91 l1 -> ~ In 91 l2 ->
+     seg_vnext own s1 l1 = seg_vnext own s2 l2 -> s1 = s2 /\ l1 = l2) /\
   (forall own e (t : ctree) (w w' : cworld) r,
-     (forall src field, e <> PNext src field) ->
+     (forall src field, e <> PNext src field) -> (forall src lst, e <> PVNext src lst) ->
      eval_pexpr own e t w = Some (w', r) -> w' = w).
-Proof. split; [exact eval_next_row|exact eval_other_keeps_iter]. Qed.
+Proof.
+  split; [exact eval_next_row|]. split; [exact eval_vnext_row|]. split; [exact seg_vnext_inj|exact eval_other_keeps_iter].
+Qed.
 Print Assumptions C15_next_in_preprocessor.
 
 (* Why the single critical section matters (the model's atomicity assumption is not idle): if
